@@ -47,6 +47,22 @@ func (s resendState) FixMsgIn(session *session, msg *Message) (nextState session
 		return
 	}
 
+	// Deliver kept messages that have become next in sequence, also inside the
+	// requested range (a replay that arrived ahead of an earlier number).
+	for {
+		stashed, ok := s.messageStash[session.store.NextTargetMsgSeqNum()]
+		if !ok {
+			break
+		}
+
+		delete(s.messageStash, session.store.NextTargetMsgSeqNum())
+
+		nextState = inSession{}.FixMsgIn(session, stashed)
+		if !nextState.IsLoggedOn() {
+			return
+		}
+	}
+
 	if s.currentResendRangeEnd != 0 && s.currentResendRangeEnd < session.store.NextTargetMsgSeqNum() {
 		nextResendState, err := session.sendResendRequest(session.store.NextTargetMsgSeqNum(), s.resendRangeEnd)
 		if err != nil {
